@@ -354,6 +354,12 @@ class CallsMixin:
                 continue
             h = s.heap
             a = Z.addr(v)
+            if self.spec and not z3.is_true(z3.simplify(Z.is_s(v))) and not z3.is_false(z3.simplify(Z.is_s(v))):
+                # specification mode is total: dispatch on the tag inside the term
+                k = h.kind_of(a)
+                outs.append((s, Z.mk_i(z3.If(Z.is_s(v), z3.Length(Z.sv(v)),
+                                             z3.If(z3.Or(k == Z.K_DICT, k == Z.K_SET), h.size_of(a), h.len_of(a))))))
+                continue
             if self.known(s, Z.is_s(v)):
                 outs.append((s, Z.mk_i(z3.Length(Z.sv(v)))))
             elif self.known(s, self.is_kind(s, v, Z.K_LIST, Z.K_TUPLE)) or self.spec:
@@ -896,10 +902,10 @@ class CallsMixin:
                 base = 'Exception' if nm == '*' else nm
                 s_ex = post.assume(self.is_sub(c, base), c >= 1)
                 conds = cond if isinstance(cond, (list, tuple)) else [cond]
+                s_ex2, e = self.new_exception(s_ex.clone(env=st.env), None, cid_term=c)
                 for cd in conds:
                     if cd and cd != 'True':
-                        s_ex = s_ex.assume(self.spec_eval(cd, s_ex, env=env, old=old))
-                s_ex2, e = self.new_exception(s_ex.clone(env=st.env), None, cid_term=c)
+                        s_ex2 = s_ex2.assume(self.spec_eval(cd, s_ex2, env=dict(env, exc=e), old=old))
                 if not (self.pure or self.spec):
                     self.throw(s_ex2.note("callee %s raised %s" % (label, nm)), e)
         return outs
@@ -1223,6 +1229,20 @@ class CallsMixin:
         args = [self.ev1(a, st) for a in node.args[1:]]
         f = z3.Function(name, *([Val] * len(args) + [Val]))
         return f(*args)
+
+    def spec_upred(self, node, st):
+        """upred('NAME', args...): uninterpreted *predicate* (a proper boolean, independent of the heap)"""
+        name = node.args[0].value
+        args = [self.ev1(a, st) for a in node.args[1:]]
+        f = z3.Function('P_' + name, *([Val] * len(args) + [B]))
+        return Z.mk_b(f(*args))
+
+    def spec_uint(self, node, st):
+        """uint('NAME', args...): uninterpreted integer-valued function"""
+        name = node.args[0].value
+        args = [self.ev1(a, st) for a in node.args[1:]]
+        f = z3.Function('I_' + name, *([Val] * len(args) + [I]))
+        return Z.mk_i(f(*args))
 
     def spec_str_lower(self, node, st):
         (a,) = self._sargs(node, st)
